@@ -213,14 +213,14 @@ static void do_bigtree(void) {
     int ok = 0;
     if (!t) { printf("no-memory"); return; }
     const uint64_t N1 = (1u << 19) - 1, N2 = 327679;
-    for (uint64_t i = 0; i < N1; i++) { bt_key(k, i << 32); if (!t->putobj(t, k, 8, "v", 2)) { printf("mismatch: put #%llu failed", (unsigned long long) i); goto out; } }
+    for (uint64_t i = 1; i <= N1; i++) { bt_key(k, i << 32); if (!t->putobj(t, k, 8, "v", 2)) { printf("mismatch: put #%llu failed", (unsigned long long) i); goto out; } }
     uint64_t X = ((uint64_t) 1 << 18) << 32;
     for (uint64_t j = N2; j >= 1; j--) { bt_key(k, X + j); if (!t->putobj(t, k, 8, "w", 2)) { printf("mismatch: put X+%llu failed", (unsigned long long) j); goto out; } }
     if (t->size(t) != N1 + N2 || qtreetbl_check(t) != 0) { printf("mismatch: size %zu / check %d after the build", t->size(t), qtreetbl_check(t)); goto out; }
     bt_key(k, X);
     if (!t->removeobj(t, k, 8) || qtreetbl_check(t) != 0 || t->size(t) != N1 + N2 - 1) { printf("mismatch: removing the key above the long spine: check %d size %zu", qtreetbl_check(t), t->size(t)); goto out; }
     size_t removed = 1;
-    for (uint64_t i = 1; i < N1; i += 997) {
+    for (uint64_t i = 2; i <= N1; i += 997) {
         bt_key(k, i << 32);
         if (i << 32 == X) continue;
         if (!t->removeobj(t, k, 8)) { printf("mismatch: remove of present key %llu failed", (unsigned long long) i); goto out; }
